@@ -50,7 +50,7 @@ def flush (ds : DS) (dump : Option St) : IO DS := do
                      opCounts := bump ds.opCounts key }
   | some op, none =>
     -- operation without a result line: the process died (abort / crash)
-    IO.println s!"FAIL {ds.h.hist} {ds.h.step + 1} {op.getD 0 ""} | C07 | no-result | process ended during the operation"
+    IO.println s!"FAIL {ds.h.hist} {ds.h.step + 1} {op.getD 0 ""} | C07{opProp (op.getD 0 "")} | no-result | process ended during the operation"
     return { ds with pendingOp := none, pendingRes := none, rd := {}, fails := ds.fails + 1 }
   | _, _ => return ds
 
